@@ -3,6 +3,7 @@ package values
 import (
 	"encoding/json"
 	"fmt"
+	"math"
 	"reflect"
 	"strconv"
 	"time"
@@ -275,6 +276,10 @@ func Convert(value any, typ reflect.Type) (any, error) { //nolint: gocyclo
 		switch value := value.(type) {
 		case []byte:
 			return string(value), nil
+		case float64:
+			return FormatFloat(value, 64), nil
+		case float32:
+			return FormatFloat(float64(value), 32), nil
 		case fmt.Stringer:
 			return value.String(), nil
 		default:
@@ -282,6 +287,15 @@ func Convert(value any, typ reflect.Type) (any, error) { //nolint: gocyclo
 		}
 	}
 	return nil, conversionError("", value, typ)
+}
+
+// FormatFloat is the text a float prints as: a whole number without a fractional part or exponent
+// (fmt prints 1000001.0 as 1.000001e+06); other values print as fmt does.
+func FormatFloat(f float64, bits int) string {
+	if f == math.Trunc(f) && math.Abs(f) < 1e15 {
+		return strconv.FormatFloat(f, 'f', -1, bits)
+	}
+	return strconv.FormatFloat(f, 'g', -1, bits)
 }
 
 // convertElement converts an element of an array, slice or map for a slice of element type et.
